@@ -258,7 +258,17 @@ func runC18(c *Ctx) {
 			for _, r := range Roots(PArgs(CallOf(put))[2]) {
 				if v, has := LiteralField(r, "LastSeen"); has {
 					if add := CallResult(v, 0, "(time.Time).Add"); add != nil {
-						if k, isC := ConstInt(PArgs(&add.Call)[1]); isC && k <= -int64(5*60*1e9) && CallResult(PArgs(&add.Call)[0], 0, "time.Now") != nil {
+						arg := PArgs(&add.Call)[1]
+						k, isC := ConstInt(arg)
+						if !isC {
+							// the negation of a configured window (-d.cfg.backendTimeout)
+							if neg, isNeg := Peel(arg).(*ssa.UnOp); isNeg && neg.Op == token.SUB {
+								if kk, isCC := ConstInt(neg.X); isCC {
+									k, isC = -kk, true
+								}
+							}
+						}
+						if isC && k <= -int64(5*60*1e9) && CallResult(PArgs(&add.Call)[0], 0, "time.Now") != nil {
 							okOld = true
 						}
 					}
@@ -520,15 +530,28 @@ func runC18(c *Ctx) {
 						okRet = false
 					}
 				} else {
-					nErr++
 					ge := false
+					early := false
 					for _, g := range GuardingIfs(r) {
 						if bo, isB := g.If.Cond.(*ssa.BinOp); isB && bo.Op == token.EQL && g.Succ == 0 {
 							if s, isC := ConstString(bo.Y); isC && s == "" {
 								ge = true
 							}
+							// an early exit for an empty candidate list: the loop below would have
+							// found nothing either
+							if n, isC := ConstInt(bo.Y); isC && n == 0 {
+								if ln, isCall := bo.X.(*ssa.Call); isCall {
+									if b, isBI := ln.Call.Value.(*ssa.Builtin); isBI && b.Name() == "len" && len(ln.Call.Args) == 1 && func() bool { _, isP := Peel(ln.Call.Args[0]).(*ssa.Parameter); return isP }() {
+										early = true
+									}
+								}
+							}
 						}
 					}
+					if early {
+						continue
+					}
+					nErr++
 					if !ge {
 						okRet = false
 					}
